@@ -78,10 +78,40 @@ Proof.
   - rewrite aget_aset_other by assumption. apply S.
 Qed.
 
-(* ---- no step panics ---- *)
-Theorem no_step_panics c st l w : NP st -> label_u64 l -> cstep c st l <> StepPanic w.
+(* every tracked admission time was taken at or before "now" *)
+Definition SO (st : cstate) : Prop := forall k ts, aget k (s_start st) = Some ts -> ts <= s_now st.
+
+Lemma SO_frame st st1 : SO st -> s_start st1 = s_start st -> s_now st1 = s_now st -> SO st1.
+Proof. intros S E1 E2 k ts. rewrite E1, E2. apply S. Qed.
+
+Lemma prepare_evict_SO c st k : SO st -> exists st1, prepare_evict c st k = Some st1 /\ SO st1.
 Proof.
-  intros (TW & ST & BT & CT & PT & RH & QH) L. destruct l as [a op|a|h|h|dt|]; cbn [cstep].
+  intros S. unfold prepare_evict. destruct (c_metrics c); [|eauto].
+  destruct (aget k (s_start st)) as [ts|] eqn:E; [|eauto].
+  specialize (S k ts E) as Hle. destruct (s_now st <? ts) eqn:X; [lia|]. eexists. split; [reflexivity|].
+  intros k' ts'. sproj. destruct (N.eq_dec k' k) as [->|Hne]; [rewrite aget_adel_same; discriminate|].
+  rewrite aget_adel_other by assumption. apply S.
+Qed.
+
+Lemma prepare_evicts_SO c cbs : forall st, SO st -> exists st1, prepare_evicts c st cbs = Some st1 /\ SO st1.
+Proof.
+  induction cbs as [|cb cbs IH]; intros st S; cbn [prepare_evicts]; [eauto|].
+  destruct cb; try (apply IH; assumption).
+  destruct (prepare_evict_SO c st k S) as (st1 & E & S1). rewrite E. apply IH. assumption.
+Qed.
+
+Lemma track_admission_SO c st k st1 : SO st -> track_admission c st k = Some st1 -> SO st1.
+Proof.
+  intros S. unfold track_admission. destruct (c_metrics c); [|intros H; inversion H; subst; assumption].
+  destruct (_ <? _); [discriminate|]. intros H; inversion H; subst. intros k' ts'. sproj.
+  destruct (N.eq_dec k' k) as [->|Hne]; [rewrite aget_aset_same; intros X; inversion X; subst; lia|].
+  rewrite aget_aset_other by assumption. apply S.
+Qed.
+
+(* ---- no step panics ---- *)
+Theorem no_step_panics c st l w : NP st -> SO st -> label_u64 l -> cstep c st l <> StepPanic w.
+Proof.
+  intros (TW & ST & BT & CT & PT & RH & QH) SOst L. destruct l as [a op|a|h|h|dt|]; cbn [cstep].
   - destruct (client_of st a); try discriminate. destruct op; cbn [start_op]; try discriminate.
     + destruct (s_closed st); [discriminate|]. destruct (st_try_update _ _ _ _ _ _) as [sto r].
       destruct r; destruct only_update; discriminate.
@@ -123,20 +153,27 @@ Proof.
         -- discriminate.
       * destruct (s_clear_sigs st); [discriminate|]. destruct (drain_buffer _). discriminate.
       * destruct (s_ticks st =? 0); [discriminate|]. destruct (em_cleanup _ _) as [em' due]. destruct due; [|discriminate].
-        unfold tick_next. destruct a; [discriminate|]. destruct (h_tick_key h); [|discriminate]. destruct (aget _ _); discriminate.
+        unfold tick_next. destruct a; [cbn [prepare_evicts]; discriminate|]. destruct (h_tick_key h); [|discriminate]. destruct (aget _ _); discriminate.
       * destruct (0 <? s_stop_msgs st); [destruct (drain_buffer _); discriminate|].
         destruct (find_offer false (s_clients st)) as [a0|]; [|discriminate].
         destruct (client_of st a0); try discriminate. destruct (drain_buffer _); discriminate.
-    + destruct added; discriminate.
+    + destruct added; [destruct (track_admission _ _ _)|]; discriminate.
     + unfold next_victim. destruct victims; discriminate.
-    + destruct v. destruct (st_try_remove _ _ _). unfold next_victim. destruct rest; discriminate.
+    + destruct v. destruct (st_try_remove _ _ _) as [sto prev].
+      match goal with |- context [prepare_evicts ?c0 ?s0 ?l0] =>
+        destruct (prepare_evicts_SO c0 l0 s0) as (st1 & E & _); [apply (SO_frame st); [exact SOst|reflexivity|reflexivity]|rewrite E] end.
+      unfold next_victim. destruct rest; discriminate.
     + destruct (st_try_remove _ _ _). discriminate.
     + destruct (st_expiration _ _) as [t|].
       * destruct (negb (t_is_zero t) && t_is_expired (s_now st) t).
         -- destruct (pol_remove _ _). discriminate.
-        -- unfold tick_next. destruct rest; [discriminate|]. destruct (h_tick_key h); [|discriminate]. destruct (aget _ _); discriminate.
-      * unfold tick_next. destruct rest; [discriminate|]. destruct (h_tick_key h); [|discriminate]. destruct (aget _ _); discriminate.
-    + destruct (st_try_remove _ _ _). unfold tick_next. destruct rest; [discriminate|]. destruct (h_tick_key h); [|discriminate]. destruct (aget _ _); discriminate.
+        -- unfold tick_next. destruct rest; [destruct (prepare_evicts_SO c acc st SOst) as (st1 & E & _); rewrite E; discriminate|]. destruct (h_tick_key h); [|discriminate]. destruct (aget _ _); discriminate.
+      * unfold tick_next. destruct rest; [destruct (prepare_evicts_SO c acc st SOst) as (st1 & E & _); rewrite E; discriminate|]. destruct (h_tick_key h); [|discriminate]. destruct (aget _ _); discriminate.
+    + destruct (st_try_remove _ _ _) as [sto prev]. unfold tick_next.
+      destruct rest; [|destruct (h_tick_key h); [|discriminate]; destruct (aget _ _); discriminate].
+      match goal with |- context [prepare_evicts ?c0 ?s0 ?l0] =>
+        destruct (prepare_evicts_SO c0 l0 s0) as (st1 & E & _); [apply (SO_frame st); [exact SOst|reflexivity|reflexivity]|rewrite E] end.
+      discriminate.
   - unfold worker_step. destruct (s_wpc st); [|discriminate]. destruct (h_arm h) as [[| | |]|]; try discriminate.
     + destruct (s_pqueue st) as [|batch r] eqn:Q; [discriminate|]. inversion QH as [|? ? Hb Hr]; subst.
       destruct (increments_total batch (s_tlfu st) TW Hb) as (t' & E & _). rewrite E. discriminate.
@@ -318,10 +355,10 @@ Proof.
   - inversion H; subst; np_goal; (eapply NPv_client; [np_done N|exact I]).
 Qed.
 
-Lemma NP_tick_next st h rest acc st' o : NP st -> tick_next st h rest acc = StepOk st' o -> NP st'.
+Lemma NP_tick_next c st h rest acc st' o : NP st -> tick_next c st h rest acc = StepOk st' o -> NP st'.
 Proof.
   intros N. unfold tick_next. destruct rest; [|destruct (h_tick_key h); [destruct (aget _ _)|]]; try discriminate;
-    intros H; inversion H; subst; np_goal; (eapply NPv_pc; [np_done N|exact I]).
+    intros H; try open_prep H; inversion H; subst; np_goal; (eapply NPv_pc; [np_done N|exact I]).
 Qed.
 
 Lemma NP_next_victim st vs st' p : NP st -> next_victim st vs = (st', p) -> NP st'.
@@ -364,11 +401,11 @@ Proof.
           destruct (client_of st a0); try discriminate. inversion T; subst. np_goal. eapply NPv_client; [np_done N|exact I]. }
       destruct (drain_buffer st1) as [st2 cbs] eqn:D. pose proof (NP_drain _ _ _ N1 D) as N2.
       inversion H; subst. np_goal. eapply NPv_pc; [np_done N2|exact I].
-  - destruct added; inversion H; subst.
+  - destruct added; [open_track H|]; inversion H; subst.
     + np_goal; (eapply NPv_pc; [|exact I]); (eapply NPv_store; [np_done N|]); (apply store_time_insert; [exact ST|]); exact PT.
     + np_goal. eapply NPv_pc; [np_done N|exact I].
   - destruct (next_victim st victims) as [st1 p] eqn:NV. inversion H; subst. eapply NP_next_victim; [exact N|exact NV].
-  - destruct v as [vk vcost]. destruct (st_try_remove _ _ _) as [sto prev] eqn:TR.
+  - destruct v as [vk vcost]. destruct (st_try_remove _ _ _) as [sto prev] eqn:TR. open_prep H.
     destruct (next_victim _ rest) as [st1 p] eqn:NV. inversion H; subst. eapply NP_next_victim; [|exact NV].
     np_goal. eapply NPv_store; [np_done N|]. eapply store_time_remove; [exact ST|exact TR].
   - destruct (st_try_remove _ _ _) as [sto prev] eqn:TR. inversion H; subst. np_goal.
@@ -408,6 +445,32 @@ Proof.
   - inversion H; subst. np_goal. np_done N.
 Qed.
 
+(* SO is preserved by every step *)
+Theorem SO_step c st l st' o : SO st -> cstep c st l = StepOk st' o -> SO st'.
+Proof.
+  intros S H.
+  assert (F : forall st1, s_start st1 = s_start st -> s_now st1 = s_now st -> SO st1) by (intros; eapply SO_frame; eassumption).
+  destruct l as [a op|a|h|h|dt|].
+  - destruct op; crush_step H; unemit; try (apply F; reflexivity).
+    all: unfold ring_push, policy_push; repeat match goal with |- context [if ?b then _ else _] => destruct b end;
+      try destruct (s_ring st ++ [k]); unemit; apply F; reflexivity.
+  - crush_step H; unemit; apply F; reflexivity.
+  - crush_step H; unemit; try (apply F; reflexivity);
+      match goal with
+      | PE : prepare_evicts ?c0 ?s0 ?l0 = Some ?x |- _ =>
+          let S1 := fresh "S1" in
+          assert (S1 : SO x) by (destruct (prepare_evicts_SO c0 l0 s0) as (y & E & Sy); [apply F; reflexivity|rewrite PE in E; inversion E; subst; exact Sy]);
+          eapply SO_frame; [exact S1|reflexivity|reflexivity]
+      | TA : track_admission ?c0 ?s0 ?k0 = Some ?x |- _ =>
+          let S1 := fresh "S1" in
+          assert (S1 : SO x) by (eapply track_admission_SO; [|exact TA]; unfold emit; try destruct (c_metrics c0); apply F; reflexivity);
+          eapply SO_frame; [exact S1|reflexivity|reflexivity]
+      end.
+  - crush_step H; unemit; apply F; reflexivity.
+  - crush_step H. intros k ts. sproj. intros X. specialize (S k ts X). lia.
+  - crush_step H. apply F; reflexivity.
+Qed.
+
 (* ---- every reachable state ---- *)
 Inductive reach_u64 (c : cfg) (st0 : cstate) : cstate -> Prop :=
 | ru_init : reach_u64 c st0 st0
@@ -419,8 +482,14 @@ Proof.
   split; [constructor|]. split; [intros a; exact I|]. split; [exact I|]. split; constructor.
 Qed.
 
-Lemma reachable_NP c mc t now st : tl_wf t -> reach_u64 c (cinit c mc t now) st -> NP st.
-Proof. intros W R. induction R as [|st l st' o R IH L S]; [apply NP_init; exact W|eapply NP_step; eassumption]. Qed.
+Lemma SO_init c mc t now : SO (cinit c mc t now).
+Proof. intros k ts X. discriminate X. Qed.
+
+Lemma reachable_NP c mc t now st : tl_wf t -> reach_u64 c (cinit c mc t now) st -> NP st /\ SO st.
+Proof.
+  intros W R. induction R as [|st l st' o R IH L S]; [split; [apply NP_init; exact W|apply SO_init]|].
+  destruct IH as (N & SOs). split; [eapply NP_step; eassumption|eapply SO_step; eassumption].
+Qed.
 
 (* C20: whatever configuration the builder accepted — any num_counters >= 1 (the sketch and the
    doorkeeper it dimensions are well-formed), any max_cost (negative included), any buffer sizes,
@@ -434,6 +503,6 @@ Theorem cache_never_panics c mc ctrs seeds entries locs now :
     forall l w, label_u64 l -> cstep c st l <> StepPanic w.
 Proof.
   intros H1 H2 H3 H4. destruct (tl_new_spec ctrs seeds entries locs H1 H2 H3 H4) as (t & E & W & _).
-  exists t. split; [exact E|]. intros st R l w L. apply no_step_panics; [|exact L].
-  eapply reachable_NP; [exact W|exact R].
+  exists t. split; [exact E|]. intros st R l w L.
+  destruct (reachable_NP c mc t now st W R) as (N & SOs). apply no_step_panics; assumption.
 Qed.
